@@ -1473,3 +1473,9 @@ func (k Call) OKPoints(cut *Cut) (ok bool) {
 	cut.AddInstrs(k.Instr)
 	return true
 }
+
+// EdgeDominates reports whether every path from the entry to b takes edge e.
+func EdgeDominates(e Edge, b *ssa.BasicBlock) bool { return edgeDominates(e, b) }
+
+// StoresToAlloc lists the stores into a local variable (incl. from closures).
+func StoresToAlloc(al *ssa.Alloc) []*ssa.Store { return storesTo(al) }
